@@ -100,3 +100,8 @@ PROPS['C18'] = dict(
     unit_modules=[], driver_modules=['drivers.c18'], level='other',
     level_text='tbd', level_note='tbd', assumptions=COMMON_ASSUMPTIONS, driver_budget_s=150,
 )
+
+PROPS['C20'] = dict(
+    unit_modules=[], driver_modules=['drivers.c20'], level='other',
+    level_text='tbd', level_note='tbd', assumptions=COMMON_ASSUMPTIONS,
+)
